@@ -397,31 +397,69 @@ Proof.
   - exists ob. split; [|apply obj_le_refl]. rewrite hget_hset_ne by exact Hn. exact Hx.
 Qed.
 
-(* the heap part of [keep]: monotone, and the upvalue objects are exactly the same objects *)
+(* heap closedness for closures: every upvalue address stored in a closure object is an upvalue object *)
+Definition clo_ok (h : heap) : Prop :=
+  forall ca lbl ar ups ua, hget h ca = Some (OClo lbl ar ups) -> In ua ups -> exists u, hget h ua = Some (OUp u).
+
+(* an object that can be stored without breaking clo_ok: not a closure, or a closure whose upvalues are upvalues *)
+Definition clo_obj_ok (h : heap) (o : obj) : Prop :=
+  forall lbl ar ups ua, o = OClo lbl ar ups -> In ua ups -> exists u, hget h ua = Some (OUp u).
+
+(* the heap part of [keep]: monotone, the upvalue objects are exactly the same objects, closedness is kept *)
 Definition hkeep (h h1 : heap) : Prop :=
-  heap_mono h h1 /\ (forall a u, hget h1 a = Some (OUp u) <-> hget h a = Some (OUp u)).
+  heap_mono h h1 /\ (forall a u, hget h1 a = Some (OUp u) <-> hget h a = Some (OUp u)) /\
+  (clo_ok h -> clo_ok h1).
 
 Lemma hkeep_refl h : hkeep h h.
-Proof. split; [apply heap_mono_refl|]. intros; reflexivity. Qed.
+Proof. split; [apply heap_mono_refl|]. split; [intros; reflexivity|auto]. Qed.
 Lemma hkeep_trans a b c : hkeep a b -> hkeep b c -> hkeep a c.
 Proof.
-  intros (A1 & A2) (B1 & B2). split; [eapply heap_mono_trans; eauto|]. intros x u. rewrite B2. apply A2.
+  intros (A1 & A2 & A3) (B1 & B2 & B3). split; [eapply heap_mono_trans; eauto|].
+  split; [intros x u; rewrite B2; apply A2|auto].
 Qed.
-Lemma hkeep_app h o : (forall u, o <> OUp u) -> hkeep h (h ++ [o]).
+
+(* closedness survives when the upvalue objects survive and every closure of the new heap is a closure of the old
+   one or is closed by itself *)
+Lemma clo_ok_transfer h h1 :
+  (forall a u, hget h a = Some (OUp u) -> exists u', hget h1 a = Some (OUp u')) ->
+  (forall a lbl ar ups, hget h1 a = Some (OClo lbl ar ups) ->
+     hget h a = Some (OClo lbl ar ups) \/ clo_obj_ok h1 (OClo lbl ar ups)) ->
+  clo_ok h -> clo_ok h1.
 Proof.
-  intros Ho. split; [apply heap_mono_app|]. intros a u. split; intros H.
-  - destruct (hget_app_inv _ _ _ _ H) as [E|[_ E]]; [exact E|]. exfalso. eapply Ho. symmetry. exact E.
-  - rewrite hget_app_old; [exact H|]. eapply hget_lt; eauto.
+  intros Hup Hclo Hok ca lbl ar ups ua Hca Hin.
+  destruct (Hclo _ _ _ _ Hca) as [Hold|Hnew].
+  - destruct (Hok _ _ _ _ _ Hold Hin) as (u & Hu). eapply Hup; eauto.
+  - eapply Hnew; eauto.
+Qed.
+
+Lemma hkeep_app h o : (forall u, o <> OUp u) -> (clo_ok h -> clo_obj_ok (h ++ [o]) o) -> hkeep h (h ++ [o]).
+Proof.
+  intros Ho Hc. split; [apply heap_mono_app|]. split.
+  - intros a u. split; intros H.
+    + destruct (hget_app_inv _ _ _ _ H) as [E|[_ E]]; [exact E|]. exfalso. eapply Ho. symmetry. exact E.
+    + rewrite hget_app_old; [exact H|]. eapply hget_lt; eauto.
+  - intros Hok. apply (clo_ok_transfer h); [| |exact Hok].
+    + intros a u H. exists u. rewrite hget_app_old; [exact H|]. eapply hget_lt; eauto.
+    + intros a lbl ar ups H. destruct (hget_app_inv _ _ _ _ H) as [E|[_ E]]; [left; exact E|].
+      right. rewrite E. apply Hc. exact Hok.
 Qed.
 Lemma hkeep_hset h a old o :
-  hget h a = Some old -> (forall u, old <> OUp u) -> (forall u, o <> OUp u) -> obj_le old o -> hkeep h (hset h a o).
+  hget h a = Some old -> (forall u, old <> OUp u) -> (forall u, o <> OUp u) -> obj_le old o ->
+  (clo_ok h -> clo_obj_ok (hset h a o) o) -> hkeep h (hset h a o).
 Proof.
-  intros Ha Hold Ho Hle. split; [eapply heap_mono_hset; eauto|]. intros x u.
-  destruct (N.eq_dec x a) as [->|Hn].
-  - rewrite hget_hset_eq by (eapply hget_lt; eauto). rewrite Ha. split; intros E; injection E as E; exfalso.
-    + eapply Ho; eauto.
-    + eapply Hold; eauto.
-  - rewrite hget_hset_ne by exact Hn. reflexivity.
+  intros Ha Hold Ho Hle Hc.
+  assert (Hup : forall x u, hget (hset h a o) x = Some (OUp u) <-> hget h x = Some (OUp u)).
+  { intros x u. destruct (N.eq_dec x a) as [->|Hn].
+    - rewrite hget_hset_eq by (eapply hget_lt; eauto). rewrite Ha. split; intros E; injection E as E; exfalso.
+      + eapply Ho; eauto.
+      + eapply Hold; eauto.
+    - rewrite hget_hset_ne by exact Hn. reflexivity. }
+  split; [eapply heap_mono_hset; eauto|]. split; [exact Hup|].
+  intros Hok. apply (clo_ok_transfer h); [| |exact Hok].
+  - intros x u H. exists u. apply Hup. exact H.
+  - intros x lbl ar ups H. destruct (N.eq_dec x a) as [->|Hn].
+    + right. rewrite hget_hset_eq in H by (eapply hget_lt; eauto). injection H as <-. apply Hc. exact Hok.
+    + left. rewrite hget_hset_ne in H by exact Hn. exact H.
 Qed.
 
 Definition keep (s s1 : state) : Prop := keep0 s s1 /\ hkeep (st_heap s) (st_heap s1).
@@ -482,34 +520,47 @@ Proof. split; [apply tick_keep0|apply hkeep_refl]. Qed.
 Lemma not_up_view o : (forall u, o <> OUp u) -> oview (Some o) = None.
 Proof. destruct o; try reflexivity. intros H. exfalso. eapply H. reflexivity. Qed.
 
-Lemma salloc_keep s o s1 a : salloc s o = (s1, a) -> (forall u, o <> OUp u) -> keep s s1.
+(* the objects the instructions allocate: not an upvalue and no closure with upvalues *)
+Definition plain_obj (o : obj) : Prop :=
+  (forall u, o <> OUp u) /\ (forall lbl ar ups, o = OClo lbl ar ups -> ups = []).
+
+Lemma salloc_keep s o s1 a : salloc s o = (s1, a) -> plain_obj o -> keep s s1.
 Proof.
-  intros H Ho. split; [eapply salloc_keep0; eauto; apply not_up_view; exact Ho|].
-  destruct (salloc_heap _ _ _ _ H) as [-> _]. apply hkeep_app. exact Ho.
+  intros H (Ho & Hc). split; [eapply salloc_keep0; eauto; apply not_up_view; exact Ho|].
+  destruct (salloc_heap _ _ _ _ H) as [-> _]. apply hkeep_app; [exact Ho|].
+  intros _ lbl ar ups ua E Hin. rewrite (Hc _ _ _ E) in Hin. destruct Hin.
 Qed.
 
 (* an object that is not an upvalue is replaced by a later state of itself *)
 Lemma hset_keep s a old o :
   hget (st_heap s) a = Some old -> (forall u, old <> OUp u) -> (forall u, o <> OUp u) -> obj_le old o ->
+  (clo_ok (st_heap s) -> clo_obj_ok (hset (st_heap s) a o) o) ->
   keep s (set_heap s (hset (st_heap s) a o)).
 Proof.
-  intros Ha Hold Ho Hle. split.
+  intros Ha Hold Ho Hle Hc. split.
   - apply hset_keep0; [rewrite Ha|]; apply not_up_view; assumption.
   - cbn [st_heap set_heap]. eapply hkeep_hset; eauto.
 Qed.
 
 Lemma set_table_keep s a t t' : hget (st_heap s) a = Some (OTable t) -> keep s (set_table s a t').
 Proof.
-  intros H. unfold set_table. eapply hset_keep; [exact H| | |exact I]; intros u Hu; discriminate Hu.
+  intros H. unfold set_table. eapply hset_keep; [exact H| | |exact I|]; try (intros u Hu; discriminate Hu).
+  intros _ lbl ar ups ua E. discriminate E.
 Qed.
 
 (* RegisterUpvalue appends an upvalue address to a closure *)
 Lemma clo_append_keep s ca ch car cups a :
   hget (st_heap s) ca = Some (OClo ch car cups) ->
+  (clo_ok (st_heap s) -> exists u, hget (st_heap s) a = Some (OUp u)) ->
   keep s (set_heap s (hset (st_heap s) ca (OClo ch car (cups ++ [a])))).
 Proof.
-  intros H. eapply hset_keep; [exact H| | |]; try (intros u Hu; discriminate Hu).
-  cbn. repeat split. eexists. reflexivity.
+  intros H Ha. eapply hset_keep; [exact H| | | |]; try (intros u Hu; discriminate Hu).
+  - cbn. repeat split. eexists. reflexivity.
+  - intros Hok lbl ar ups ua E Hin. injection E as <- <- <-.
+    assert (Hu : exists u, hget (st_heap s) ua = Some (OUp u)).
+    { apply in_app_or in Hin. destruct Hin as [Hin|[<-|[]]]; [eapply Hok; eauto|auto]. }
+    destruct Hu as (u & Hu). exists u. rewrite hget_hset_ne; [exact Hu|].
+    intros ->. rewrite H in Hu. discriminate Hu.
 Qed.
 
 (* SetUpvalue through a CLOSED upvalue: the object's own cell changes (this is not a [keep] step) *)
@@ -565,6 +616,10 @@ Definition rres_ok (r : rres) : Prop :=
 Definition nres_ok (r : nres) : Prop :=
   match r with NOk _ s' | NErr _ s' => vm_ok s' | NStop _ _ => True end.
 
+Ltac plain_tac :=
+  let HE := fresh "HE" in
+  split; [intros ? ?; discriminate|intros ? ? ? HE; first [discriminate HE|injection HE as _ _ <-; reflexivity]].
+
 Ltac note_keep :=
   repeat match goal with
          | H : spush _ _ = Some _ |- _ => apply spush_keep in H
@@ -572,7 +627,7 @@ Ltac note_keep :=
          | H : sset _ _ _ = Some _ |- _ => apply sset_keep in H
          | H : spop_w_offset _ _ = (_, _) |- _ => apply spop_w_offset_keep in H
          | H : write_local _ _ _ _ = Some _ |- _ => apply write_local_keep in H
-         | H : salloc _ _ = (_, _) |- _ => apply salloc_keep in H; [|intros ? ?; discriminate]
+         | H : salloc _ _ = (_, _) |- _ => apply salloc_keep in H; [|plain_tac]
          end.
 
 Ltac peel :=
